@@ -107,7 +107,7 @@ def extract(config="default", repo=REPO, verbose=True):
         lock.close()
 
 
-def _prune(keep, limit=16):
+def _prune(keep, limit=64):
     ents = []
     for n in os.listdir(CACHE):
         p = os.path.join(CACHE, n)
